@@ -23,6 +23,10 @@ class _Stop(Exception):
     pass
 
 
+class Unknowable(Exception):
+    """exact interpretation met something it cannot decide"""
+
+
 def _assigned_names(nodes):
     out = set()
     for n in nodes:
@@ -65,12 +69,22 @@ class Tok:
         return hash((self.kind, self.n))
 
 
+class NS(dict):
+    """an object with constant attributes (e.g. `self` with the attributes a method reads)"""
+
+
+class Gen(list):
+    """the remaining items of a generator expression (next() consumes from the front)"""
+
+
 class Interp:
-    def __init__(self, env=None, objects=False):
+    def __init__(self, env=None, objects=False, exact=False):
         self.env = dict(env or {})
         self.steps = 0
         self.objects = objects
         self.created = []
+        self.exact = exact      # exact: follow return / raise / continue precisely, give up (Unknowable) on anything unknown
+        self.result = None
 
     # ---- expressions
     def ev(self, e):
@@ -191,7 +205,15 @@ class Interp:
                 else:
                     return U
             return out
-        if isinstance(e, (ast.ListComp, ast.SetComp, ast.DictComp, ast.GeneratorExp)):
+        if isinstance(e, ast.Attribute):
+            v = self.ev(e.value)
+            if isinstance(v, NS):
+                return v.get(e.attr, U)
+            return U
+        if isinstance(e, ast.GeneratorExp):
+            v = self._comp(e)
+            return v if v is U else Gen(v)
+        if isinstance(e, (ast.ListComp, ast.SetComp, ast.DictComp)):
             return self._comp(e)
         if isinstance(e, ast.Call):
             return self._call(e)
@@ -298,6 +320,10 @@ class Interp:
                       "enumerate": lambda *a: list(enumerate(*a)), "zip": lambda *a: list(zip(*a)), "range": lambda *a: list(range(*a)),
                       "int": int, "float": float, "str": str, "bool": bool, "abs": abs, "min": min, "max": max, "sum": sum,
                       "any": any, "all": all, "round": round, "divmod": divmod, "frozenset": frozenset}
+            if fn == "next" and args and isinstance(args[0], Gen):
+                if args[0]:
+                    return args[0].pop(0)
+                return args[1] if len(args) > 1 else U
             if fn in simple:
                 if fn == "range" and args and max(abs(int(a)) for a in args) > 4096:
                     return U
@@ -349,6 +375,14 @@ class Interp:
             if isinstance(st, (ast.Pass, ast.Import, ast.ImportFrom, ast.Assert, ast.Global, ast.Nonlocal)):
                 continue
             if isinstance(st, (ast.Return, ast.Raise)):
+                if self.exact:
+                    if isinstance(st, ast.Raise):
+                        self.result = ("raise", None)
+                    else:
+                        v = self.ev(st.value) if st.value is not None else None
+                        if v is UNKNOWN:
+                            raise Unknowable(f"return value at L{st.lineno}")
+                        self.result = ("return", v)
                 return "exit"
             if isinstance(st, (ast.Break, ast.Continue)):
                 return "break" if isinstance(st, ast.Break) else "continue"
@@ -392,6 +426,8 @@ class Interp:
             if isinstance(st, ast.If):
                 t = self.ev(st.test)
                 if t is UNKNOWN:
+                    if self.exact:
+                        raise Unknowable(f"test at L{st.lineno}")
                     self._poison(st.body + st.orelse)
                     continue
                 r = self.run(st.body if t else st.orelse)
@@ -401,6 +437,8 @@ class Interp:
             if isinstance(st, ast.For):
                 it = self.ev(st.iter)
                 if it is UNKNOWN or st.orelse:
+                    if self.exact:
+                        raise Unknowable(f"loop at L{st.lineno}")
                     self._poison([st])
                     continue
                 try:
@@ -416,10 +454,14 @@ class Interp:
                     if r == "break":
                         break
                     if r == "exit":
+                        if self.exact:
+                            return "exit"
                         self._poison([st])
                         return None
                 continue
             # anything else (while, with, try, match, delete ...): whatever it assigns is unknown
+            if self.exact:
+                raise Unknowable(f"statement at L{st.lineno}")
             self._poison([st])
         return None
 
@@ -461,3 +503,25 @@ def module_consts(tree):
     except (_Stop, RecursionError):
         return {}
     return {k: v for k, v in it.env.items() if v is not UNKNOWN}
+
+
+def call(fn, args, consts=None):
+    """Interpret function node `fn` exactly on constant arguments {param: value}: ("return", value) | ("raise", None); raises
+    Unknowable when the outcome depends on something that is not a compile-time constant."""
+    env = dict(consts or {})
+    a = fn.args
+    names = [x.arg for x in a.posonlyargs + a.args]
+    defaults = dict(zip(names[len(names) - len(a.defaults):], a.defaults))
+    it = Interp(env, exact=True)
+    for n in names:
+        if n in args:
+            it.env[n] = args[n]
+        elif n in defaults:
+            it.env[n] = it.ev(defaults[n])
+        else:
+            it.env[n] = UNKNOWN
+    try:
+        it.run(fn.body)
+    except (_Stop, RecursionError):
+        raise Unknowable("interpreter limit")
+    return it.result if it.result is not None else ("return", None)
